@@ -735,6 +735,31 @@ var c17set = newChk("C17", "set-get",
 			}
 			want = renderOptMap(m)
 			p.UpdateOption(dhcpv4.OptRelayAgentInfo(subs...))
+		case 30:
+			// a search list read from a packet, edited in place (same number of names), and set again
+			name = "DomainSearch"
+			var l []string
+			for _, x := range c.Strs {
+				l = append(l, string(x))
+			}
+			src, _ := dhcpv4.New(dhcpv4.WithOption(dhcpv4.OptDomainSearch(&rfc1035label.Labels{Labels: append([]string{}, l...)})))
+			parsed := src.DomainSearch()
+			if parsed == nil || len(parsed.Labels) != len(l) {
+				return obs.Failf("C17/set-get/DomainSearch", fmt.Sprintf("%q", l), "%v", parsed)
+			}
+			edited := append([]string{}, l...)
+			i := int(c.U32) % len(l)
+			if c.Mapd {
+				edited[i] = flipCase(edited[i])
+			} else {
+				edited[i] = "edited.example" // a valid name
+				if len(l) > 1 {
+					edited[i] = l[(i+1)%len(l)] // another valid name of the same list
+				}
+			}
+			parsed.Labels[i] = edited[i]
+			want = fmt.Sprintf("%q", edited)
+			p.UpdateOption(dhcpv4.OptDomainSearch(parsed))
 		case 29:
 			name, want = "UserClass", fmt.Sprintf("%q", []string{string(c.Str)})
 			// the single-string (non RFC 3004) form; a value that happens to parse as RFC 3004 items is read as items
@@ -788,7 +813,7 @@ func rfc3004(v []byte) ([]string, bool) {
 
 func TestC17_SetGetRapid(t *testing.T) {
 	c17set.rapidCheck(t, rapid.Custom(func(rt *rapid.T) c17Set {
-		c := c17Set{Kind: rapid.IntRange(0, 29).Draw(rt, "kind"), Mapd: rapid.Bool().Draw(rt, "mapped"), U32: rapid.Uint32().Draw(rt, "u32")}
+		c := c17Set{Kind: rapid.IntRange(0, 30).Draw(rt, "kind"), Mapd: rapid.Bool().Draw(rt, "mapped"), U32: rapid.Uint32().Draw(rt, "u32")}
 		n := rapid.IntRange(1, 5).Draw(rt, "n")
 		for i := 0; i < n; i++ {
 			c.IPs = append(c.IPs, rapid.SliceOfN(rapid.Byte(), 4, 4).Draw(rt, "ip"))
@@ -801,7 +826,7 @@ func TestC17_SetGetRapid(t *testing.T) {
 		}
 		c.Str = str
 		switch c.Kind {
-		case 27:
+		case 27, 30:
 			for _, nme := range gen.Names(4).Draw(rt, "names") {
 				c.Strs = append(c.Strs, []byte(nme))
 			}
